@@ -431,7 +431,7 @@ pub fn check(c: &Case) -> Result<u64, String> {
 
 pub fn run(ctx: &mut Ctx) -> Result<(), Violation> {
     let nightly_part = cfg!(feature = "nightly") && std::env::var("VERIF_PART").as_deref() == Ok("nightly");
-    ctx.rule = "Round-trips: payload of EVERY length 0..=L x fills through DryocBox (plain, sealed), DryocSecretBox, SignedMessage, KeyPair, SigningKeyPair, kx::Session, Kdf, PwHash+Config and bare StackByteArray<8|12|16|24|32|64> over stack and Vec containers (HeapBytes, LockedBytes, Locked<HeapByteArray<N>>, LockedRO in the nightly sub-run) via to_bytes/from_bytes/from_sealed_bytes, into_parts/from_parts, serde_json (string, bytes, Value), bincode (slice, reader) and serde's own BytesDeserializer / SeqDeserializer (both visitor paths). Oracle: decoded object equals the original AND still decrypts / unseals / verifies / derives the same subkey; to_bytes equals libsodium's combined layout. Wrong-length table: for every N in {8,12,16,24,32,64} and every count 0..=2N, a JSON element sequence, a bincode byte string, the bytes visitor and the seq visitor must be refused exactly when count != N (never padded, truncated or panicking), also nested in KeyPair / DryocBox / DryocSecretBox / SignedMessage documents, TryFrom<&[u8]> and from_slice_into_locked. Non-trivial: a serde round-trip with payload >= 1 or any wrong-length case; distinct = (case hash).".into();
+    ctx.rule = "Round-trips: payload of EVERY length 0..=L x fills through DryocBox (plain, sealed), DryocSecretBox, SignedMessage, KeyPair, SigningKeyPair, kx::Session, Kdf, PwHash+Config and bare StackByteArray<8|12|16|24|32|64> over stack and Vec containers (HeapBytes, LockedBytes, Locked<HeapByteArray<N>>, LockedRO in the nightly sub-run) via to_bytes/from_bytes/from_sealed_bytes, into_parts/from_parts, serde_json (string, bytes, Value), bincode (slice, reader) and serde's own BytesDeserializer / SeqDeserializer (both visitor paths). Oracle: decoded object equals the original AND still decrypts / unseals / verifies / derives the same subkey; to_bytes equals libsodium's combined layout. Wrong-length table: for every N in {8,12,16,24,32,64} and every count 0..=2N, a JSON element sequence, a bincode byte string, the bytes visitor and the seq visitor must be refused exactly when count != N (never padded, truncated or panicking), also nested in KeyPair / DryocBox / DryocSecretBox / SignedMessage documents, TryFrom<&[u8]> and from_slice_into_locked. The committed decoder-fuzzing corpus is replayed through the decoder oracle (no panic; whatever decodes re-encodes stably). Non-trivial: a serde round-trip with payload >= 1 or any wrong-length case; distinct = (case hash).".into();
     ctx.assumptions = vec!["fixed-length enforcement is demanded only of fixed-length container types (Vec<u8> keys have no length to enforce)".into()];
     let l = ctx.tier.pick(200usize, 600);
     let fills = ctx.tier.pick(4usize, 48);
@@ -470,6 +470,18 @@ pub fn run(ctx: &mut Ctx) -> Result<(), Violation> {
         }
         Ok(())
     })?;
+    if !nightly_part {
+        // the committed libFuzzer corpus of the decoder target, through the plain oracle (no fuzzer involved)
+        let verif = std::env::var("VERIF_DIR").unwrap_or("/verif".into());
+        let mut files: Vec<_> = std::fs::read_dir(format!("{verif}/corpus/decoders")).map(|rd| rd.filter_map(|e| e.ok()).map(|e| e.path()).collect()).unwrap_or_default();
+        files.sort();
+        ctx.par_each(&files, |_, p, ev| {
+            let Ok(data) = std::fs::read(p) else { return Ok(()) };
+            ev.eval(1);
+            ev.class("decoder-corpus-replay");
+            decode_fuzz(&data).map_err(|m| Violation::new("C16", "decoder-bytes", format!("{m} (corpus file {})", p.display()), json!({"bytes": hex::encode(&data)})))
+        })?;
+    }
     Ok(())
 }
 
